@@ -225,13 +225,17 @@ def verify_function(ex, key, timeout_ms=10000, extra_pre=()):
                                                 spec.report_props, model=mt, meta={"path": i}))
                 continue
             res = normalize(out.val, ret_ty)
+            lem = []
+            for lname, lfn in spec.lemma_fns:
+                _cm.UNFOLD = unfold
+                lem.append(z3_bool(lfn(a, res)))
             for c in spec.post:
                 _cm.take_links()
                 goal = c.fn(a, res, reports=out.st.reports) if "reports" in c.fn.__code__.co_varnames[:c.fn.__code__.co_argcount] else c.fn(a, res)
                 if isinstance(goal, bool) and goal:
                     rep.results.append(ObResult(f"{key}.{c.name}.path{i}", "ensures", "proved", "trivial", 0.0, c.props))
                     continue
-                status, be, secs, mt, m = solve(list(out.st.hyps) + links + _cm.take_links(), z3_bool(goal), axioms, timeout_ms)
+                status, be, secs, mt, m = solve(list(out.st.hyps) + links + lem + _cm.take_links(), z3_bool(goal), axioms, timeout_ms)
                 rep.results.append(ObResult(f"{key}.{c.name}.path{i}", "ensures", status, be, secs, c.props, model=mt,
                                             meta={"z3model": m, "args": args, "result": res, "path": i}))
             if len(rep.path_samples) < 3:
